@@ -252,6 +252,14 @@ fn apply(op: Op) {
             let t = c.model.borrow_mut().g.take().unwrap();
             put_var(a, t, h);
         },
+        Code::PutG => {
+            let h = c.vars[a as usize].borrow_mut().take().unwrap();
+            let mut m = c.model.borrow_mut();
+            let t = m.vars[a as usize].take().unwrap();
+            m.g = Some(t);
+            drop(m);
+            *c.g.borrow_mut() = Some(h);
+        },
         Code::DropG => {
             let h = c.g.borrow_mut().take().unwrap();
             {
@@ -591,6 +599,16 @@ fn op_try_unwrap(a: u8) {
             match alloc::block(addr) {
                 Some(b) if b.freed => {},
                 _ => v!("C13", "P-unwrap", "try_unwrap returned Ok but the allocation of object #{} was not released", id),
+            }
+            #[cfg(feature = "weak")]
+            for j in 0..MAXW {
+                if c.model.borrow().wvars[j] == Some(WRef::Obj(id)) {
+                    let w = c.wvars[j].borrow();
+                    let sc = w.as_ref().unwrap().strong_count();
+                    if sc != 0 {
+                        v!("C13", "P-unwrap", "try_unwrap returned Ok but a Weak to object #{} still reports strong_count() = {}", id, sc);
+                    }
+                }
             }
             if hk::buffer_first() == addr || safe_buffer().map_or(true, |b| b.contains(&addr)) {
                 v!("C13", "P-unwrap", "try_unwrap returned Ok but the released allocation of object #{} is still buffered", id);
@@ -1781,6 +1799,9 @@ pub fn enabled(s: &Summary, cfg: &LensCfg, out: &mut Vec<Op>) {
             if b < T && va.cells[b] && on(Code::CollectHolding) {
                 out.push(Op::new(Code::CollectHolding, a8, b as u8, 0));
             }
+        }
+        if on(Code::PutG) && !s.g {
+            out.push(Op::new(Code::PutG, a8, 0, 0));
         }
         if on(Code::SetFin) && va.fin_script == 0 {
             for k in &cfg.fin_menu {
